@@ -275,7 +275,7 @@ class Var(RefBase):
         return f"#'{self.ns.name}/{self.name}"
 
     def __call__(self, *args, **kwargs):
-        return self.value(*args, *kwargs)  # pylint: disable=not-callable
+        return self.value(*args, **kwargs)  # pylint: disable=not-callable
 
     @property
     def ns(self) -> "Namespace":
